@@ -7,6 +7,10 @@ HOOK_COMMITS = ["189fd6a"]
 
 # id -> (technique, level text, level note, design ref)
 CLAIMED = {
+ "C13": ("Lean 4 theorems over small state machines of the select of NextPackage, the per-packet context check and the close/lock protocol, parameterised by structural facts regenerated from channel.go/conn.go (go/ast) + scenario scripts on the real code under a watchdog",
+         "Partial by nature (wall-clock promptness, the Go scheduler, select and RWMutex are runtime behaviour no theorem exhibits). Proved, at the structural facts regenerated from the source on every run: with the caller's or the connection's context done NextPackage has a result at once in every state and it is the closed condition, an already queued package/error or the context error; after Close every receive reports closed; a send whose context is done before the first packet writes nothing; while Close waits for the write lock some step is always enabled (no deadlock, for any fill level incl. full and unbuffered queues) and every schedule reaches the lock within 2*pending+fill+2 steps; without the draining (the code before fix 96477eb) the deadlock state is exhibited. The scenario harness runs the real calls (cancel/close/abandoned responses of capacity-2..capacity+8 packages, reader exit) under a watchdog and compares with the model's allowed answers. Defects found and repaired: Close deadlock (96477eb), double Close panic (0a9ad6c), reader outliving Conn.Close (94554e5).",
+         "Trusted: Lean kernel; the extractor's structural facts (read lock held across sends to the package queue, draining goroutine before Lock, context cases of the selects); Go runtime semantics of select (any ready case), RWMutex (a waiting writer excludes new readers), channels; 1.5 s watchdog as the observation of 'bounded'.",
+         "DESIGN.md §7 C13"),
  "C09": ("Lean 4 theorems over the regenerated login-record layout (go/ast translation of LoginConfig.pack) + wire-level oracle with the peer's private key",
          "Proof: for the layout regenerated from LoginConfig.pack on every run and every encrypted mode, the login record is identical for any two passwords (so it cannot contain the password in any encoding), its password slot is 31 zero bytes, lseclogin announces the extended-plus protocol; in the plain flow the password is in its slot (control); the record has its fixed size, oversized fields are rejected and fitting ones accepted. Partial by nature for the rest: that RSA-OAEP hides its input and that crypto/rand is fresh are cryptographic assumptions; the ciphertext messages are not modelled in Lean but checked on the real code by decrypting every ciphertext with the peer's private key (nonce || secret, 32-byte session key), searching all written bytes and error texts for every secret, and comparing two logins for freshness.",
          "Trusted: Lean kernel; the extractor's translation of pack() (unrecognised statements are an error = broken tie); writeString/writeBasedOnEndian semantics transcribed by hand and tied by the `lr` correspondence; crypto/rsa, crypto/rand.",
